@@ -136,15 +136,22 @@ Definition receiver_error (e0 : merr) (on : ioty) (prev : vty) : merr :=
 (** the refinement of a return type (PT_Any, Single) — a function that returns one
     element of its input: First, Last, Index — by the underlying kind of the
     receiver's schema value; every other return type is reported as it is *)
-Definition refine_return (ret : ioty) (k : ckind) : ioty :=
+Definition refine_return (ret : ioty) (k : ckind) (prev : vty) : ioty :=
   match ret with
   | (PT_Any, IO_Single) =>
-    match k with
-    | KBool => (PT_Boolean, IO_Single)
-    | KString => (PT_String, IO_Single)
-    | KNumber | KInt | KFloat => (PT_Number, IO_Single)
-    | KStruct => (PT_Object, IO_Single)
-    | _ => ret                                   (* list: Any; bytes, `_`, bottom: untouched *)
+    let elem := match k with
+                | KBool => Some PT_Boolean
+                | KString => Some PT_String
+                | KNumber | KInt | KFloat => Some PT_Number
+                | KStruct => Some PT_Object
+                | _ => None                      (* list: Any; bytes, `_`, bottom: untouched *)
+                end in
+    (* the schema value at the path is the function's input only while no other function has been
+       applied to it (repair of finding F31): the element type is reported only when it is the
+       type of the receiver as the previous part reported it *)
+    match elem, prev with
+    | Some t, Some (pt, _) => if ptype_eqb pt t then (t, IO_Single) else ret
+    | _, _ => ret
     end
   | _ => ret
   end.
@@ -367,10 +374,10 @@ with validate_func (f : func) (cue_path : list str) (prev : vty) {struct f} : pa
                end
              end) ps O None in
         let k := underlying_kind v in
-        let ty := refine_return (fd_ret fd) k in
+        let ty := refine_return (fd_ret fd) k prev in
         let known := fd_known fd in
         let in_known_branch := known && iotype_eqb (snd (fd_ret fd)) IO_Single
-                               && vty_io_is prev IO_Array && ckind_eqb k KStruct in
+                               && vty_io_is prev IO_Array && vty_ty_is prev PT_Object && ckind_eqb k KStruct in
         let ty' := if in_known_branch then (PT_Object, snd ty) else ty in
         (* getAvailableFieldsForValue(getUnderlyingValue(cuePathValue)) *)
         let fields_fail := in_known_branch &&
